@@ -339,6 +339,8 @@ def none_check(ctx, rr):
                                         'write) and is consumed unchecked' % var))
             elif isinstance(par, ast.Return) or (isinstance(par, ast.BoolOp) and isinstance(P.parent.get(id(par)), ast.Return)):
                 rr.ob(ctx.where(u, c), 'storage.read result is returned to the caller unchanged', ok=True)
+            elif _only_tested(P, c):
+                rr.ob(ctx.where(u, c), 'storage.read result is only tested (block present or not), never unpacked', ok=True)
             else:
                 # consumed directly: accepted only for header.read() when every caller ensured the header block first
                 ok = False
@@ -354,6 +356,27 @@ def none_check(ctx, rr):
                                         'consumed unchecked: `%s`' % ast.unparse(par)[:80]))
     rr.require(n, 5, 'storage.read sites')
     rr.info['read_sites'] = n
+
+
+def _only_tested(P, c):
+    """the call's value is used as (part of) the test of an if / while / conditional expression / assert, through not / and / or /
+    `is None` only: nothing is read out of the block"""
+    cur, par = c, P.parent.get(id(c))
+    while par is not None:
+        if isinstance(par, (ast.If, ast.While, ast.IfExp, ast.Assert)):
+            return par.test is cur
+        if isinstance(par, ast.UnaryOp) and isinstance(par.op, ast.Not):
+            cur, par = par, P.parent.get(id(par))
+            continue
+        if isinstance(par, ast.BoolOp):
+            cur, par = par, P.parent.get(id(par))
+            continue
+        if isinstance(par, ast.Compare) and len(par.ops) == 1 and isinstance(par.ops[0], (ast.Is, ast.IsNot)) and isinstance(par.comparators[0], ast.Constant) \
+                and par.comparators[0].value is None and par.left is cur:
+            cur, par = par, P.parent.get(id(par))
+            continue
+        return False
+    return False
 
 
 def _reaching_uses(ctx, u, var, def_stmt):
